@@ -545,7 +545,8 @@ def _check_decimal(
         splitted[1] = ""
     len_left = splitted[0].str.len().fillna(0)
     len_right = splitted[1].str.len().fillna(0)
-    precisions = len_left + len_right
+    # the sign and the zero before the decimal point are not digits
+    precisions = splitted[0].str.lstrip("+-0").str.len().fillna(0) + len_right
 
     scales = series_cls(
         np.full_like(decimals, np.nan), dtype=np.object_, index=decimals.index  # type: ignore
